@@ -197,6 +197,7 @@ func (f *Frame) execSend(ch, x ssa.Value, pos token.Pos, cond string) {
 	}
 	_, _ = cnt, val
 	f.chanElemSend(ch, v, pos, cond)
+	f.siteSend(ch, c, v, pos, cond)
 	// per-activation ghost: the sends performed by this function's own instructions, in order
 	vc.regComp("Own_SendCnt", "Int")
 	vc.regComp("Own_SendChan", "(Array Int Int)")
